@@ -44,7 +44,10 @@ func Group(services *fun.Iterator[*Service]) *Service {
 					ec.Add(s.Start(ctx))
 				}(services.Value())
 			}
-			wg.Wait(ctx)
+			// Start never blocks: wait for every start goroutine
+			// even if the context has ended, so that each started
+			// service's Wait is queued before the queue is closed.
+			wg.Operation().Wait()
 			ec.Add(waiters.Close())
 			return nil
 		},
